@@ -139,7 +139,7 @@ for _k in ('savorize', 'recognize', 'sweeten'):
         _FAMILIES[(_k, _m)] = _fam
 
 
-def _doc_for(target):
+def _doc_for(target, tagged=False):
     ents = [(scalar(T_STR, 'a'), scalar(T_INT, '1'))]
     if target in (1, 2):
         ents.append((scalar(T_STR, 'b'), scalar(T_INT, '2')))
@@ -147,6 +147,9 @@ def _doc_for(target):
         ents.append((scalar(T_STR, 'c'), scalar(T_INT, '3')))
     if target == 3:
         ents.append((scalar(T_STR, 's'), scalar(T_INT, '4')))
+    if tagged:
+        # the document author names the (correct) class explicitly
+        return mapping(ents, tag='!' + pick(['A', 'B', 'C', 'S'], target))
     return mapping(ents)
 
 
@@ -166,14 +169,15 @@ def _expected_hooks(kind, target, fa, fb, fc, fs):
     return [(kind, n, n) for n in chain if has[n]]
 
 
-def _load_hooks(kind, fa, fb, fc, fs, fm, target, pos, raise_in):
+def _load_hooks(kind, fa, fb, fc, fs, fm, target, pos, raise_in,
+                tagged=False):
     fam = family(kind, fa, fb, fc, fs, fm)
     load = pick(fam['load'], pos)
     del TRACE[:]
     names = ['A', 'B', 'C', 'S']
     RAISE[0] = pick([None, 'A', 'B', 'C', 'S'], raise_in) \
         if kind == 'savorize' else None
-    tree = _place(_doc_for(target), pos)
+    tree = _place(_doc_for(target, tagged), pos)
     try:
         v = load_tree(load, tree)
         outcome = 'ok'
@@ -216,7 +220,7 @@ def _load_hooks(kind, fa, fb, fc, fs, fm, target, pos, raise_in):
 
 
 def savorize(fa: bool, fb: bool, fc: bool, fs: bool, fm: bool, target: int,
-             pos: int, raise_in: int) -> bool:
+             pos: int, raise_in: int, tagged: bool) -> bool:
     """
     pre: 0 <= target < 4 and 0 <= pos < 5 and 0 <= raise_in < 5
     post: __return__
@@ -224,16 +228,20 @@ def savorize(fa: bool, fb: bool, fc: bool, fs: bool, fm: bool, target: int,
     s = slice_no(-1)
     if s >= 0 and pos != s:
         return True
-    return _load_hooks('savorize', fa, fb, fc, fs, fm, target, pos, raise_in)
+    if tagged and raise_in != 0:
+        return True
+    return _load_hooks('savorize', fa, fb, fc, fs, fm, target, pos, raise_in,
+                       tagged)
 
 
 def recognize(fa: bool, fb: bool, fc: bool, fs: bool, fm: bool, target: int,
-              pos: int) -> bool:
+              pos: int, tagged: bool) -> bool:
     """
     pre: 0 <= target < 4 and 0 <= pos < 5
     post: __return__
     """
-    return _load_hooks('recognize', fa, fb, fc, fs, fm, target, pos, 0)
+    return _load_hooks('recognize', fa, fb, fc, fs, fm, target, pos, 0,
+                       tagged)
 
 
 def _sweeten(fa, fb, fc, fs, fm, target, pos):
@@ -284,7 +292,8 @@ CONDITIONS = [
      'thorough': 300,
      'bound': 'one slice per position: all 2^5 subsets of classes defining '
               '_yatiml_savorize (incl. the unregistered mix-in) x document '
-              'denoting A/B/C/S x the hook of A/B/C/S (or none) raising '
+              'denoting A/B/C/S, untagged or tagged with its class, x the '
+              'hook of A/B/C/S (or none) raising '
               'SeasoningError; trace == base-first own-body hooks of the '
               'registered chain, all before the constructor'},
     {'fn': 'savorize_reach', 'quick': 60, 'thorough': 60,
